@@ -1,5 +1,8 @@
 """C17 via module PopLayout (see harness/poplayout_check.py, harness/replay_poplayout.py)."""
+import json
+
 from . import poplayout_check
+from .common import MachineryError
 
 PROP = 'C17'
 RULES = {
@@ -17,9 +20,72 @@ RULES = {
 }
 
 
+RC_CLAUSES = {'Agree', 'UniqueDefault', 'NamesIds', 'PL_Counts', 'Evaluable', 'Denotation'}
+
+
+def _summ(r):
+    if not r.ok():
+        raise MachineryError('TLC did not finish cleanly: %s %s' % (r.violated, r.errors[:1]))
+    return dict(states=r.distinct, transitions=r.generated, wall_s=round(r.wall, 2))
+
+
+def reconfig(tier, seed):
+    """module PopReconfig: TLC checks every invariant of PopLayout after every history of at most MaxOps public
+    reconfiguration calls (set_n_ids / fix / release / set_dim_names / set_parameter_names) on six compositions, exports
+    every history of exactly MaxOps calls, and (thorough) random longer walks; each is applied to the real objects."""
+    from . import tlc, replay_popreconfig
+    from .verdict import pmap
+    runs = []
+    r = tlc.run('MC_PopReconfig', 'PopReconfig_quick.cfg', want_records=False)
+    runs.append(dict(cfg='PopReconfig_quick.cfg', mode='exhaustive (VIEW hides the history)', **_summ(r)))
+    r = tlc.run('MC_PopReconfig', 'PopReconfig_walks.cfg')
+    runs.append(dict(cfg='PopReconfig_walks.cfg', mode='exhaustive, every history of MaxOps=4 calls exported',
+                     histories=len(r.records), **_summ(r)))
+    recs = list(r.records)
+    if tier == 'thorough':
+        for k in range(4):
+            w = tlc.simulate('MC_PopReconfig', 'PopReconfig_long.cfg', 400, 60, seed=seed * 10 + k)
+            runs.append(dict(cfg='PopReconfig_long.cfg', mode='simulate num=400 depth=60 (MaxOps=8)', histories=len(w.records),
+                             **_summ(w)))
+            recs += w.records
+    seen, uniq = set(), []
+    for x in recs:
+        k = json.dumps(x, sort_keys=True)
+        if k not in seen:
+            seen.add(k)
+            uniq.append(x)
+    return runs, uniq, pmap(replay_popreconfig.replay_case, [(x, seed) for x in uniq])
+
+
 def run(tier, seed):
-    return poplayout_check.run(PROP, tier, seed, [], RULES[PROP])
+    def extra(v, cov):
+        runs, uniq, res = reconfig(tier, seed)
+        for fails, cnt in res:
+            v.failures([f for f in fails if f['clause'] in RC_CLAUSES])
+            v.merge_counters({'reconfig_' + k: n for k, n in cnt.items()})
+        if not uniq or not v.counters.get('reconfig_evaluations'):
+            raise MachineryError('vacuous reconfiguration run')
+        cov['tlc_runs'] = cov['tlc_runs'] + runs
+        cov['states'] += sum(r['states'] for r in runs)
+        cov['transitions'] += sum(r['transitions'] for r in runs)
+        cov['traces_validated_against_impl'] += len(uniq)
+        cov['reconfiguration_histories_replayed'] = len(uniq)
+        cov['rule'] += ('; plus module PopReconfig: every history of 4 reconfiguration calls (and, thorough, random walks '
+                        'of up to 8) on six compositions, replayed on the real objects, counts/names/IDs/vector and '
+                        'gradient lengths compared after every call and at the end')
+    return poplayout_check.run(PROP, tier, seed, [], RULES[PROP], extra=extra)
 
 
 def replay(path):
+    rep = json.load(open(path))
+    if 'hist' in rep['case']['config']:
+        from . import replay_popreconfig
+        fails, _ = replay_popreconfig.replay_case((rep['case']['config'], rep['seed']))
+        for f in fails:
+            if f['clause'] in RC_CLAUSES:
+                print('VIOLATION property=%s replay=%s' % (PROP, path))
+                print('  clause=%s manifestation=%s detail=%s' % (f['clause'], f['manifestation'], str(f['detail'])[:400]))
+                return 1
+        print('replay passes')
+        return 0
     return poplayout_check.replay(PROP, path)
